@@ -679,8 +679,8 @@ var c11BuildErrRe = regexp.MustCompile(`gen_m\.go:(\d+):\d+: (.*)`)
 // compile and run the emitted programs for real: fc process -> go build -> run; printed values (hex)
 // vs the meaning of the pieces
 func c11Batches(c *Ctx, ks []*c11Case) {
-	per := c.Pick(500, 2500)
-	maxBatches := c.Pick(1, 24)
+	per := c.Pick(500, 1500)
+	maxBatches := c.Pick(1, 40)
 	if !c.Thorough() {
 		// quick: one program with every single-character, escape, brace and hole case that stands alone,
 		// the rest of the budget random bodies (every case was already evaluated in-process)
@@ -722,10 +722,14 @@ func c11Batches(c *Ctx, ks []*c11Case) {
 		}
 		MustWrite(filepath.Join(dir, "m.fo"), src.String())
 		MustWrite(filepath.Join(dir, "main.go"), "package main\n\nimport (\n\t\"fmt\"\n\n\t\"github.com/karino2/folang/pkg/frt\"\n)\n\nvar _ = frt.Println\n\n"+c11DriverVars+"\nfunc main() {\n"+mainb.String()+"}\n")
-		r := c.Fc(dir, "m.fo")
+		// (a longer limit than c.Fc: the batch has thousands of functions and the machine may be busy)
+		r := Run(dir, 300e9, 0, []string{"GOMAXPROCS=2"}, filepath.Join(c.Bin, "fc"), "m.fo")
 		c.Count("real_process_runs")
+		if r.TimedOut {
+			panic("fc timed out on a batch of literal functions (machine overloaded?)")
+		}
 		if r.Exit != 0 {
-			c.Violate("batch", "literals accepted one by one are rejected together: "+firstLine(r.Stdout), map[string]any{"source": src.String(), "fc_output": r.Stdout}, false)
+			c.Violate("batch", "literals accepted one by one are rejected together: "+firstLine(r.Stdout+r.Stderr), map[string]any{"source": src.String(), "fc_output": r.Stdout + r.Stderr, "exit": r.Exit}, false)
 			return
 		}
 		c.GoModFor(dir, "c11batch")
@@ -758,7 +762,7 @@ func c11Batches(c *Ctx, ks []*c11Case) {
 			return
 		}
 		rr := Run(dir, 120e9, 0, nil, filepath.Join(dir, "prog"))
-		got := strings.Split(strings.TrimSpace(rr.Stdout), "\n")
+		got := strings.Split(strings.TrimSuffix(rr.Stdout, "\n"), "\n")
 		if rr.Exit != 0 || len(got) != len(batch) {
 			c.Violate("run", "the compiled literal programs fail at run time: "+firstLine(rr.Stderr), map[string]any{"stderr": rr.Stderr}, false)
 			return
